@@ -80,12 +80,12 @@ async fn query_nameserver_udp_notimeout(
 
     #[cfg(resolved_verif)]
     if let Some(transport) = verif::current_transport() {
-        // same as the real path: the reply lands in a zeroed 512-byte buffer
+        // same as the real path: at most 512 octets of the reply are received
         let reply = transport(address, false, serialised_request.to_vec()).await?;
         let mut buf = vec![0u8; 512];
         let n = std::cmp::min(reply.len(), buf.len());
         buf[..n].copy_from_slice(&reply[..n]);
-        return Message::from_octets(&buf).ok();
+        return Message::from_octets(&buf[..n]).ok();
     }
 
     let mut buf = vec![0u8; 512];
